@@ -134,7 +134,8 @@ class C16(PropertyCheck):
     pid = "C16"
     title = "FITS round trip"
     nontrivial_rule = (
-        "round-trip cases are non-trivial when the content is not invariant under a vertical flip "
+        "round-trip cases are non-trivial when the content is not invariant under a vertical flip, or the "
+        "array is held in native form with non-zero values under the mask, "
         "(>= 2 rows with different content) or the shape is degenerate (1xN / Nx1) or the object is "
         "1-D; history cases when at least one call targets an existing path; distinct = distinct case"
     )
@@ -148,6 +149,42 @@ class C16(PropertyCheck):
         "stored and returned unchanged'; exercised on every case, never proved",
         "the operating system's filesystem (os.path.exists / os.makedirs / os.remove): modelled by the state "
         "machine Model.Fits.FS; exercised in fresh temp directories, never proved",
+    ]
+    modelled_functions = [
+        "autoarray/structures/arrays/array_2d_util.py:hdu_for_output_from",
+        "autoarray/structures/arrays/array_2d_util.py:numpy_array_2d_to_fits",
+        "autoarray/structures/arrays/array_2d_util.py:numpy_array_2d_via_fits_from",
+        "autoarray/structures/arrays/array_2d_util.py:header_obj_from",
+        "autoarray/structures/arrays/array_1d_util.py:hdu_for_output_from",
+        "autoarray/structures/arrays/array_1d_util.py:numpy_array_1d_to_fits",
+        "autoarray/structures/arrays/array_1d_util.py:numpy_array_1d_via_fits_from",
+        "autoarray/structures/arrays/array_1d_util.py:convert_array_1d",
+        "autoarray/abstract_ndarray.py:AbstractNDArray.flip_hdu_for_ds9",
+        "autoarray/abstract_ndarray.py:AbstractNDArray.pixel_scales_from_header",
+        "autoarray/mask/abstract_mask.py:Mask.pixel_scale_header",
+        "autoarray/structures/arrays/uniform_2d.py:AbstractArray2D.native",
+        "autoarray/structures/arrays/uniform_2d.py:AbstractArray2D.hdu_for_output",
+        "autoarray/structures/arrays/uniform_2d.py:AbstractArray2D.output_to_fits",
+        "autoarray/structures/arrays/uniform_2d.py:Array2D.no_mask",
+        "autoarray/structures/arrays/uniform_2d.py:Array2D.from_fits",
+        "autoarray/structures/arrays/uniform_2d.py:Array2D.from_primary_hdu",
+        "autoarray/structures/arrays/kernel_2d.py:Kernel2D.from_fits",
+        "autoarray/structures/arrays/kernel_2d.py:Kernel2D.from_primary_hdu",
+        "autoarray/structures/arrays/uniform_1d.py:Array1D.native",
+        "autoarray/structures/arrays/uniform_1d.py:Array1D.hdu_for_output",
+        "autoarray/structures/arrays/uniform_1d.py:Array1D.output_to_fits",
+        "autoarray/structures/arrays/uniform_1d.py:Array1D.from_fits",
+        "autoarray/structures/arrays/uniform_1d.py:Array1D.from_primary_hdu",
+        "autoarray/mask/mask_2d.py:Mask2D.hdu_for_output",
+        "autoarray/mask/mask_2d.py:Mask2D.output_to_fits",
+        "autoarray/mask/mask_2d.py:Mask2D.from_fits",
+        "autoarray/mask/mask_2d.py:Mask2D.from_primary_hdu",
+        "autoarray/mask/mask_1d.py:Mask1D.hdu_for_output",
+        "autoarray/mask/mask_1d.py:Mask1D.output_to_fits",
+        "autoarray/mask/mask_1d.py:Mask1D.from_fits",
+        "autoarray/mask/mask_1d.py:Mask1D.from_primary_hdu",
+        "autoarray/dataset/imaging/dataset.py:Imaging.output_to_fits",
+        "autoarray/dataset/imaging/dataset.py:Imaging.from_fits",
     ]
     assumptions = [
         "values are finite float64 numbers (NaN / inf are outside the property's 'real values')",
@@ -180,6 +217,37 @@ class C16(PropertyCheck):
         sy = rng.choice(pool)
         sx = rng.choice([s for s in pool if s != sy]) if aniso else sy
         return [q(sy), q(sx)]
+
+    def _junk_arr_case(self, rng, m, tag, kind=None, flip=None, mode=None):
+        """a MASKED array held in NATIVE form whose underlying ndarray is non-zero at masked pixels:
+        `arith`  = arithmetic on a native-stored array (`a - c`: masked cells become -c);
+        `skip_mask` = built with `store_native=True, skip_mask=True` from a native array with junk.
+        The file / HDU must nevertheless hold zeros at the masked pixels."""
+        kind = kind or rng.choice(["array2d", "array2d", "kernel2d"])
+        mode = mode or ("arith" if kind == "kernel2d" else rng.choice(["arith", "skip_mask"]))
+        if kind == "kernel2d":
+            mode = "arith"  # Kernel2D's constructor swallows skip_mask
+        n = sum(1 for r in m for b in r if not b)
+        c = self._arr_case(rng, m, tag, kind=kind, flip=flip)
+        # small dyadic values: (v + c) - c == v exactly in double precision
+        c["values"] = qlist(self._values(rng, n, rng.choice(["distinct", "dyadic"])))
+        c["store_native"] = True
+        c["junk"] = mode
+        c["junk_shift"] = q(rng.choice([Fraction(2), Fraction(-3, 2), Fraction(1, 4), Fraction(-7)]))
+        c["junk_values"] = qlist([Fraction(rng.choice([77, -5, 1000, 3])) + Fraction(i, 2)
+                                  for i in range(len(m) * len(m[0]) - n)])
+        return c
+
+    @staticmethod
+    def _stored_native(case):
+        """the ndarray a junk case actually holds (row-major), as exact rationals"""
+        bits = case["mask"]["bits"] if "mask" in case else case["bits"]
+        vals = iter(Fraction(v) for v in case["values"])
+        if case["junk"] == "arith":
+            shift = Fraction(case["junk_shift"])
+            return [Fraction(0) - shift if b == "1" else next(vals) for b in bits]
+        junk = iter(Fraction(v) for v in case["junk_values"])
+        return [next(junk) if b == "1" else next(vals) for b in bits]
 
     def _arr_case(self, rng, m, tag, kind=None, flip=None, **kw):
         h, w = len(m), len(m[0])
@@ -219,12 +287,23 @@ class C16(PropertyCheck):
                     yield self._arr_case(rng, gen.full(h, w, False), "shape_exh_kernel", kind="kernel2d",
                                          flip=flip)
                     yield self._mask_case(rng, self._structured_mask(rng, h, w), "shape_exh_mask", flip=flip)
+                    if h * w >= 2:
+                        mj = self._structured_mask(rng, h, w)
+                        if not any(b for r in mj for b in r):
+                            mj[rng.randrange(h)][rng.randrange(w)] = True
+                        if all(b for r in mj for b in r):
+                            mj[0][0] = False
+                        yield self._junk_arr_case(rng, mj, "shape_exh_native_junk", flip=flip,
+                                                  mode=["arith", "skip_mask"][(h + w + flip) % 2],
+                                                  kind="array2d" if (h * w + flip) % 3 else "kernel2d")
         # 2. random larger shapes, structured masks
         n = 60 if tier == "quick" else 500
         for _ in range(n):
             h, w = rng.randint(1, 9), rng.randint(1, 9)
             m, mk = gen.random_mask(rng, h, w)
             yield self._arr_case(rng, m, f"rand_array_{mk}")
+            if any(b for r in m for b in r) and rng.random() < 0.5:
+                yield self._junk_arr_case(rng, m, f"rand_native_junk_{mk}")
             m2, mk2 = gen.random_mask(rng, rng.randint(1, 9), rng.randint(1, 9))
             yield self._mask_case(rng, m2, f"rand_mask_{mk2}")
         # 3. 1-D
@@ -243,6 +322,22 @@ class C16(PropertyCheck):
                            "bits": "".join("1" if b else "0" for b in mask),
                            "scale": self._scales(rng, False)[0],
                            "path_style": rng.choice(["abs", "rel", "bare", "nested"])}
+        for ln in range(2, n1 + 2):
+            for _ in range(2 if tier == "quick" else 6):
+                mask = [rng.random() < 0.5 for _ in range(ln)]
+                if all(mask):
+                    mask[rng.randrange(ln)] = False
+                if not any(mask):
+                    mask[rng.randrange(ln)] = True
+                nun = mask.count(False)
+                yield {"tag": "1d_native_junk", "kind": "array1d", "flip": rng.random() < 0.5,
+                       "bits": "".join("1" if b else "0" for b in mask),
+                       "values": qlist(self._values(rng, nun, "distinct")),
+                       "scale": self._scales(rng, False)[0], "store_native": True,
+                       "junk": rng.choice(["arith", "direct"]),
+                       "junk_shift": q(rng.choice([Fraction(2), Fraction(-3, 2), Fraction(1, 4)])),
+                       "junk_values": qlist([Fraction(77 + i) for i in range(ln - nun)]),
+                       "path_style": rng.choice(["abs", "rel", "bare", "nested"])}
         for _ in range(20 if tier == "quick" else 150):
             ln = rng.randint(5, 14)
             mask = [rng.random() < 0.4 for _ in range(ln)]
@@ -326,6 +421,18 @@ class C16(PropertyCheck):
         mask = aa.Mask2D(mask=m, pixel_scales=sc, origin=origin)
         vals = np.array([_f(v) for v in case["values"]], dtype="float64")
         cls = aa.Kernel2D if case["kind"] == "kernel2d" else aa.Array2D
+        if case.get("junk"):
+            held = np.array([_f(v) for v in self._stored_native(case)], dtype="float64").reshape(m.shape)
+            if case["junk"] == "arith":
+                shift = _f(case["junk_shift"])
+                nat = np.full(m.shape, 55.0)
+                nat[~m] = vals + shift
+                a = cls(values=nat, mask=mask, store_native=True) - shift
+            else:
+                a = cls(values=held.copy(), mask=mask, store_native=True, skip_mask=True)
+            if not np.array_equal(np.asarray(a.array, dtype="float64"), held):
+                raise Skip("could not build a native-stored array with non-zero values under the mask")
+            return a, sc
         if case.get("store_native"):
             nat = np.full(m.shape, 77.0)  # junk in masked cells must not reach the file
             nat[~m] = vals
@@ -369,12 +476,30 @@ class C16(PropertyCheck):
             obs["resized_ref"] = _mask_obs(ref)
         return obs
 
+    @staticmethod
+    def _stored_native_1d(case):
+        vals = iter(Fraction(v) for v in case["values"])
+        if case["junk"] == "arith":
+            shift = Fraction(case["junk_shift"])
+            return [Fraction(0) - shift if b == "1" else next(vals) for b in case["bits"]]
+        junk = iter(Fraction(v) for v in case["junk_values"])
+        return [next(junk) if b == "1" else next(vals) for b in case["bits"]]
+
     def _impl_array1d(self, aa, case, sb):
         mask = np.array([c == "1" for c in case["bits"]], dtype=bool)
         s = _f(case["scale"])
         m1 = aa.Mask1D(mask=mask, pixel_scales=s)
         vals = np.array([_f(v) for v in case["values"]], dtype="float64")
-        if case.get("store_native"):
+        if case.get("junk"):
+            held = np.array([_f(v) for v in self._stored_native_1d(case)], dtype="float64")
+            if case["junk"] == "arith":
+                shift = _f(case["junk_shift"])
+                nat = np.zeros(mask.shape)
+                nat[~mask] = vals + shift
+                a = aa.Array1D(values=nat, mask=m1, store_native=True) - shift
+            else:
+                a = aa.Array1D(values=held.copy(), mask=m1, store_native=True)
+        elif case.get("store_native"):
             nat = np.zeros(mask.shape)
             nat[~mask] = vals
             a = aa.Array1D(values=nat, mask=m1, store_native=True)
@@ -528,14 +653,19 @@ class C16(PropertyCheck):
     def model_requests(self, case, impl_obs):
         kind = case["kind"]
         if kind in ("array2d", "kernel2d"):
-            return [{"op": "c16.array2d", "mask": case["mask"], "values": case["values"],
-                     "scales": case["scales"], "flip": case["flip"]}]
+            req = {"op": "c16.array2d", "mask": case["mask"], "values": case["values"],
+                   "scales": case["scales"], "flip": case["flip"]}
+            if case.get("junk"):
+                req["stored_native"] = qlist(self._stored_native(case))
+            return [req]
         if kind == "mask2d":
             return [{"op": "c16.mask2d", "mask": case["mask"], "scales": case["scales"], "flip": case["flip"],
                      "invert": case.get("invert", False)}]
         if kind == "array1d":
-            return [{"op": "c16.array1d", "bits": case["bits"], "values": case["values"],
-                     "scale": case["scale"]}]
+            req = {"op": "c16.array1d", "bits": case["bits"], "values": case["values"], "scale": case["scale"]}
+            if case.get("junk"):
+                req["stored_native"] = qlist(self._stored_native_1d(case))
+            return [req]
         if kind == "mask1d":
             return [{"op": "c16.mask1d", "bits": case["bits"], "scale": case["scale"]}]
         if kind == "multi_hdu":
@@ -763,6 +893,8 @@ class C16(PropertyCheck):
     # ------------------------------------------------------------------ bookkeeping
     def nontrivial(self, case, obs):
         kind = case["kind"]
+        if case.get("junk"):
+            return True
         if kind in ("array2d", "kernel2d", "mask2d"):
             mj = case["mask"]
             h, w = mj["h"], mj["w"]
@@ -784,6 +916,9 @@ class C16(PropertyCheck):
         return True
 
     def known_finding(self, case, obs):
+        # D31: a NATIVE-stored Array1D keeps (and writes) non-zero values at masked entries
+        if case.get("kind") == "array1d" and case.get("junk"):
+            return "D31"
         return None
 
     def shrink(self, case):
@@ -823,7 +958,7 @@ class C16(PropertyCheck):
                            "C16.bare_name_cwd"],
             "mask2d": ["C16.mask2d_hdu_roundtrip", "C16.mask2d_file_roundtrip"],
             "array1d": ["C16.array1d_roundtrip"], "mask1d": ["C16.mask1d_roundtrip"],
-        }.get(kind, ["C16.array2d_hdu_roundtrip", "C16.array2d_file_roundtrip", "C16.scales_header_roundtrip",
+        }.get(kind, ["C16.native_stored_written_zero_filled", "C16.array2d_hdu_roundtrip", "C16.array2d_file_roundtrip", "C16.scales_header_roundtrip",
                       "C16.flip_undone", "C16.output_is_flipped", "C16.masked_pixels_read_zero",
                       "C16.output_to_fits_then_from_fits"])
 
